@@ -2,7 +2,7 @@
    run by tools/translate_imp.py) refine the script machine sstep of Model/Machines.v. The Python script is a sparse dictionary (absent = 0). *)
 From Coq Require Import ZArith List Lia Bool Arith.
 Import ListNotations.
-From CF Require Import ZSum ListAux Defs Core Machines GraphLink MachinesLink PyDict ImpRep TranslatedImpCFiringScript.
+From CF Require Import ZSum ListAux Defs Core Machines GraphLink MachinesLink PyDict ImpRep TranslatedImpCFiringScript TranslatedImpCFDivisor ImpLinkArith.
 Open Scope Z_scope.
 
 Definition rep_script (n : nat) (sd : dictZ) (s : list Z) : Prop := length s = n /\ forall v, (v < n)%nat -> d_get v 0 sd = nthZ s v.
@@ -32,3 +32,34 @@ Lemma rep_script_of s : rep_script (length s) (dict_of_div s) s.
 Proof. split; [reflexivity|]. intros v Hv. unfold d_get, dict_of_div. rewrite d_find_of_fun, mem_seq0. destruct (Nat.ltb_spec v (length s)); [reflexivity|lia]. Qed.
 Lemma rep_vset_of n : rep_vset n (seq 0 n).
 Proof. intros v. unfold s_mem. fold (mem v (seq 0 n)). apply mem_seq0. Qed.
+
+(* ---- the constructor CFiringScript(graph, script), translated from the current source: without a dictionary (None) the empty script; with one, every key must be a
+   vertex of the graph - otherwise it raises - and the stored dictionary answers exactly the given firings, 0 for every vertex not mentioned ---- *)
+Definition sinit_body (vs : list nat) (acc_ : pyres (list (nat * Z)) (list (nat * Z))) (kv_ : nat * Z) : pyres (list (nat * Z)) (list (nat * Z)) :=
+  match acc_ with PyExn e_ => PyExn e_ | PyOk self_script => let '(vertex_name, firings) := kv_ in
+  let vertex := vertex_name in
+  if (negb (s_mem vertex vs)) then PyExn self_script else
+  let self_script := d_set vertex firings self_script in PyOk self_script end.
+Lemma sinit_exn vs L e : fold_left (sinit_body vs) L (PyExn e) = PyExn e.
+Proof. induction L as [|x L IH]; [reflexivity|exact IH]. Qed.
+Lemma sinit_loop n vs : rep_vset n vs -> forall L sd, forallb (fun kv => Nat.ltb (fst kv) n) L = true -> fold_left (sinit_body vs) L (PyOk sd) = PyOk (store_all L sd).
+Proof. intros Hv. induction L as [|[k x] L IH]; intros sd H; [reflexivity|]. cbn [fold_left forallb fst] in *. unfold sinit_body at 2. cbn zeta.
+  apply andb_true_iff in H. destruct H as [H1 H2]. rewrite (Hv k), H1. cbn [negb]. rewrite IH by exact H2. reflexivity. Qed.
+Lemma sinit_loop_bad n vs : rep_vset n vs -> forall L sd, forallb (fun kv => Nat.ltb (fst kv) n) L = false -> exists e, fold_left (sinit_body vs) L (PyOk sd) = PyExn e.
+Proof. intros Hv. induction L as [|[k x] L IH]; intros sd H; [discriminate|]. cbn [fold_left forallb fst] in *. unfold sinit_body at 2. cbn zeta.
+  rewrite (Hv k). destruct (Nat.ltb k n); cbn [negb andb] in *; [apply IH; exact H|]. rewrite sinit_exn. eexists. reflexivity. Qed.
+Lemma script_ctor_unfold vs gg sc : CFiringScript___init__ vs gg sc =
+  match sc with Some d => match fold_left (sinit_body vs) d (PyOk []) with PyExn e_ => PyExn e_ | PyOk sd => PyOk sd end | None => PyOk [] end.
+Proof. reflexivity. Qed.
+Theorem script_ctor_refines n vs gg sc : rep_vset n vs -> (forall d, sc = Some d -> NoDup (d_keys d)) ->
+  match sc with
+  | None => CFiringScript___init__ vs gg sc = PyOk [] /\ rep_script n [] (tab n (fun _ => 0))
+  | Some d => match CFiringScript___init__ vs gg sc with
+              | PyOk sd => forallb (fun kv => Nat.ltb (fst kv) n) d = true /\ rep_script n sd (tab n (fun v => d_get v 0 d))
+              | PyExn _ => forallb (fun kv => Nat.ltb (fst kv) n) d = false end end.
+Proof. intros Hv Hnd. rewrite script_ctor_unfold. destruct sc as [d|].
+  - destruct (forallb (fun kv => Nat.ltb (fst kv) n) d) eqn:Ef.
+    + unfold dictZ in *. rewrite (sinit_loop n vs Hv d [] Ef). split; [reflexivity|]. split; [apply tab_length|]. intros v Hvn. rewrite nthZ_tab by exact Hvn.
+      unfold d_get. rewrite store_all_find by (apply (Hnd d eq_refl)). destruct (d_find v d); reflexivity.
+    + unfold dictZ in *. destruct (sinit_loop_bad n vs Hv d [] Ef) as [e He]. rewrite He. reflexivity.
+  - split; [reflexivity|]. split; [apply tab_length|]. intros v Hvn. rewrite nthZ_tab by exact Hvn. reflexivity. Qed.
